@@ -13,7 +13,7 @@ Import ListNotations.
 Require Import RV.Lib.PyStr RV.Model.ContentLine RV.Model.Vobj RV.Model.C14Spec RV.Model.Export RV.Model.Split.
 Require Import RV.Proofs.ExportProofs RV.Proofs.SplitProofs RV.Proofs.RegroupProofs RV.Proofs.UnfixedProofs.
 Require RV.Proofs.LinesProofs RV.Proofs.QpProofs RV.Proofs.TextProofs RV.Proofs.CleanupProofs RV.Proofs.TreeProofs RV.Proofs.C14Final
-        RV.Proofs.CanonProofs RV.Proofs.FixedPointProofs.
+        RV.Proofs.CanonProofs RV.Proofs.FixedPointProofs RV.Proofs.SplitCrlfProofs.
 Open Scope N_scope.
 
 (* ---------------------------------------------------------------------------------------------------------------
@@ -217,6 +217,18 @@ Theorem C14_export_key_unfolded : forall b v conts rest,
   tz_key b = Some (v ++ List.concat (map (skipn 1) conts)).
 Proof. exact tz_key_unfolded. Qed.
 Print Assumptions C14_export_key_unfolded.
+
+(* The export cuts an item's text into lines at CRLF and nowhere else (`str.split("\r\n")`): a text whose lines
+   hold no CR-LF pair -- whatever else they hold: a lone CR or LF, U+2028, U+2029, U+0085, VT, FF, FS, GS, RS -- is cut
+   back into exactly those lines (plus the empty piece after the last CRLF), so C14_export applies to it. *)
+Theorem C14_export_lines_only_at_crlf : forall ls, Forall SplitCrlfProofs.no_crlf ls -> split_crlf (crlf_lines ls) = ls ++ [[]].
+Proof. exact SplitCrlfProofs.split_crlf_lines. Qed.
+Print Assumptions C14_export_lines_only_at_crlf.
+Theorem C14_export_other_breaks_ignored :
+  split_crlf [97; 8232; 98; 8233; 99; 133; 100; 11; 101; 12; 102; 28; 103; 29; 104; 30; 105; 13; 106; 10; 107] =
+  [[97; 8232; 98; 8233; 99; 133; 100; 11; 101; 12; 102; 28; 103; 29; 104; 30; 105; 13; 106; 10; 107]].
+Proof. exact SplitCrlfProofs.split_crlf_ignores_other_breaks. Qed.
+Print Assumptions C14_export_other_breaks_ignored.
 
 (* the pinned code keyed on the first physical line: two zones whose long TZIDs differ after the fold lose one *)
 Theorem C14_export_unfixed_refuted :
